@@ -20,7 +20,7 @@ PROPS = {
                         'client Rule/Task code (assumed deterministic, as the property does)'],
     },
     'C02': {
-        'units': ['engine', 'sqlite', 'engine_loop'],
+        'units': ['engine', 'sqlite', 'engine_loop', 'depids'],
         'design_ref': 'DESIGN.md section 4, C02',
         'claim': 'every reason reported to the delegate is true of the rule record at the moment of the report (precondition of the delegate stub at '
                  'every call site under contract); a task is created only from NeedsToRun and the rule leaves that state; an unchanged value keeps computedAt',
@@ -131,7 +131,7 @@ PROPS = {
                         'chained without delimiters (candidate finding F9, ExternalCommand::getSignature is not under contract)', 'the null-build claim end to end'],
     },
     'C11': {
-        'units': ['mkdeps', 'depinfo', 'shelldeps', 'shelldeps_dispatch', 'engine_loop'],
+        'units': ['mkdeps', 'depinfo', 'shelldeps', 'shelldeps_dispatch', 'engine_loop', 'depids'],
         'design_ref': 'DESIGN.md section 4, C11',
         'claim': 'Makefile-deps lexer/parser: consumed/produced byte accounting of lexWord, every reported word is a '
                  'non-empty span of the buffer, rule start/end pairing also on error paths, isWordChar table; the shell command\'s depfile callbacks record '
